@@ -14,8 +14,10 @@ CFG_B = {"kind": "ok", "legacy": [], "svcs": [{"ks": [1], "ls": [["tcp", 1]]}, {
 
 
 def run(ctx):
-    n = 15 if ctx.quick else 300
+    n = 10 if ctx.quick else 200
     behs, g = rc_common.gen_behaviours(ctx, n, cfg="Gen_ReplayCacheSys.cfg", seed=ctx.seed + 11)
+    behs6, g6 = rc_common.gen_behaviours(ctx, n, cfg="Gen_ReplayCacheSys6.cfg", seed=ctx.seed + 12)
+    behs = behs + behs6      # two values of -replay_history
     scen = []
     for i, b in enumerate(behs):
         steps = [{"a": "Load", "cfg": CFG_A, "frn": [], "ok": True}]
